@@ -286,6 +286,14 @@ def step (ms : MState) (op : String) (args impl : List String) : MState × Pred 
       | "S", some p, [] => fin (createSectionIn s (some p.obj) name typeTok id created)
       | "O", some p, [] => if p.kind == "B" then fin (createSource s p.obj name typeTok id created) else fin (createSourceIn s p.obj name typeTok id created)
       | "A", some p, [dt, shape] => if dt == "Nothing" then fail "createDataArray with DataType::Nothing" else fin (createDataArray s p.obj name typeTok id created dt shape)
+      | "A", some p, [dt, shape, cls] =>
+        -- the templated createDataArray(name, type, data, dtype): element type inferred for Nothing, the array made, the data
+        -- written; a write that is refused (numbers ↔ strings, anything but Bool for a Bool array) takes the new array away again
+        let dt' := if dt == "Nothing" then (if cls == "d" then "Double" else "String") else dt
+        let fits := if cls == "d" then !(["String", "Bool", "Opaque", "Char"].contains dt') else dt' == "String"
+        (match createDataArray s p.obj name typeTok id created dt' shape with
+         | (s', .ok o) => if fits then fin (s', .ok o) else ({ ms with store := s }, errTok .h5Error)
+         | (_, .error e) => ({ ms with store := s }, errTok e))
       | "D", some p, [cols] =>
         match parseCols cols with
         | some (ns, ts) =>
